@@ -52,6 +52,7 @@ type RunOut struct {
 	ZGlobals  []string       `json:"zero_globals"`
 	Loops     map[string]int `json:"loops"`
 	Summaries []string       `json:"summaries_used"`
+	Usage     []string       `json:"summary_usage"`
 	Registry  map[string]string `json:"registry,omitempty"`
 }
 
@@ -171,7 +172,7 @@ func runHarness(prog *ssa.Program, root *ssa.Package, modPkgs map[string]bool, r
 	if rc.MaxLoop == 0 {
 		rc.MaxLoop = 100000
 	}
-	x := &Exec{d: newDAG(), prog: prog, cfg: rc, summ: map[string]*Summary{}, funcs: map[string]bool{}, stubs: map[string]bool{},
+	x := &Exec{d: newDAG(), prog: prog, cfg: rc, summ: map[string]*Summary{}, usage: map[string]bool{}, funcs: map[string]bool{}, stubs: map[string]bool{},
 		zglobals: map[string]bool{}, loops: ro.Loops, modPkgs: modPkgs, maxPaths: rc.MaxPaths}
 	for _, s := range rc.Summaries {
 		x.summ[s.Fn] = s
@@ -299,6 +300,7 @@ func runHarness(prog *ssa.Program, root *ssa.Package, modPkgs map[string]bool, r
 		ro.Summaries = append(ro.Summaries, k)
 	}
 	sort.Strings(ro.Summaries)
+	ro.Usage = sortedKeys(x.usage)
 	return ro
 }
 
